@@ -251,7 +251,9 @@ fn build_shape(request: &Message, op: &str, i: usize, n: usize, secret: &[u8], p
     if matches!(shape.mac, Mac::Absent) {
         return Built { tsig_at: unsigned.len(), bytes: unsigned, mac: Vec::new(), key_name_len };
     }
-    let time = T0 + i as u64 - 1;
+    // several messages of a stream are signed within the same second (1 and 2 at T0, 3 and 4 at T0 + 1):
+    // time must not go backwards, but it need not advance
+    let time = T0 + (i as u64 - 1) / 2;
     let s = signer(secret);
     let computed: Vec<u8> = if i == 1 {
         // the first message is signed by the code the server uses (Catalog -> TSigResponseContext)
